@@ -115,6 +115,7 @@ struct PolState {
     int epoch = 0;
     int handler_mode = HM_THROW;
     HeldVp held[MAXVP];
+    int handler_ours = 0;        // the installed handler is the harness's
     std::size_t last_allocs = 0; // allocations of the last completed update
     std::uint64_t checksum = 0; // published data at this policy's last event
     bool checksum_valid = false;
@@ -279,6 +280,7 @@ struct Exec {
     void note_own_event(PolState& s) {
         s.checksum = s.ops->published_checksum();
         s.checksum_valid = true;
+        s.handler_ours = s.ops->snap().handler_is_ours;
     }
 
     void check_isolation(int acting) {
@@ -296,6 +298,16 @@ struct Exec {
                 return violate(
                     "C14", "isolation", "published-data-changed",
                     "data published for policy " + s.name +
+                        " changed during an event on another policy",
+                    d);
+            }
+            if (s.ops->snap().handler_is_ours != s.handler_ours) {
+                J d = J::obj();
+                d.set("policy", s.name);
+                d.set("acting", acting >= 0 ? ps[acting].name : "world");
+                return violate(
+                    "C14", "isolation", "handler-changed",
+                    "the error handler of policy " + s.name +
                         " changed during an event on another policy",
                     d);
             }
